@@ -265,7 +265,10 @@ def main():
              'kind_free_text': 'real threaded server under a deterministic '
              'virtual-time scheduler (vf/vsched.py) and real asyncio server '
              'behind the real ASGI adapter on a virtual loop (vf/vloop.py, '
-             'vf/sima.py), driven by a reactive reference client (vf/hist.py)'},
+             'vf/sima.py) or behind the real aiohttp adapter and web server '
+             'over an in-memory transport speaking HTTP/1.1 and RFC 6455 '
+             'bytes (vf/simh.py), driven by a reactive reference client '
+             '(vf/hist.py)'},
             {'name': 'cliT+cliA', 'path': 'vf/cli.py',
              'serves_properties': ['C08', 'C09'],
              'kind_free_text': 'real clients on the same engines against a '
